@@ -77,6 +77,12 @@ AltRows(rows) == [i \in 1..Len(rows) |-> IF i = 1 \/ i = Len(rows) THEN rows[i] 
 AltOk(rows) == Len(rows) >= 3 /\ \A i \in 1..(Len(rows) - 1) : rows[i + 1] - rows[i] >= 2
 GridHistories == << <<"A", "B", "A">>, <<"B", "A", "B">> >>
 
+\* Kernel units: a user kernel may be tabulated in other units than relative pressure / mmol/g; the caller says so with a
+\* kernel_units dictionary.  The SAME dictionary object is handed to every call of the scenarios of that kernel (a caller
+\* keeps it next to the kernel file); every call is judged like a first call in those units.
+KernelUnits == [loading_basis |-> "molar", loading_unit |-> "cm3(STP)", material_basis |-> "mass", material_unit |-> "g",
+                pressure_mode |-> "absolute", pressure_unit |-> "kPa"]
+
 \* Histories: the result of a fit is a function of the CONTENT of the kernel file it names and of the isotherm, not of
 \* which kernel files were used before.  Two different user kernels that share their file name (in different
 \* directories) are fitted in every order of length 4; each fit is judged like a first call.
